@@ -178,6 +178,59 @@ def exact_ee_cases(ctx):
                               dict(kind="eeq0", n=n, thr=thr))
 
 
+def cli_case(ctx, k):
+    """--max-ee / --max-aer / --max-n at the command line, with the quality encoding the user declares."""
+    import os
+    import shutil
+    from .. import clirun, fastx
+
+    rng = ctx.rng("c14cli", k)
+    base = rng.choice([33, 64])
+    recs = []
+    for i in range(rng.randint(8, 30)):
+        n = rng.choice([0, 1, 2, 5, rng.randint(3, 40)])
+        prof = rng.random()
+        q = [rng.randint(0, 41) if prof < 0.6 else rng.choice([2, 10, 20, 30, 40]) for _ in range(n)]
+        sq = "".join(rng.choice("ACGTNn" if rng.random() < 0.3 else "ACGT") for _ in range(n))
+        recs.append((f"r{i}", sq, "".join(chr(base + x) for x in q), q))
+    mode = rng.choice(["ee", "aer", "n"])
+    thr = dict(ee=rng.choice(["0.01", "0.5", "1", "3"]), aer=rng.choice(["0.001", "0.01", "0.1", "0.3"]), n=rng.choice(["0", "1", "0.1", "0.5"]))[mode]
+    d = os.path.join(ctx.scratch, f"cli{k}")
+    os.makedirs(d, exist_ok=True)
+    try:
+        with open(os.path.join(d, "in.fq"), "w") as f:
+            f.write(fastx.format_fastq([r[:3] for r in recs]))
+        argv = ["--quality-base", str(base), {"ee": "--max-ee", "aer": "--max-aer", "n": "--max-n"}[mode], thr, "-o", "out.fq", "in.fq"]
+        res = clirun.run(argv, d, timeout=60)
+        case = dict(kind="cli", k=k, argv=argv)
+        ctx.count("cli_runs")
+        if res.rc != 0:
+            ctx.case(("cli-fail", k))
+            ctx.violation("cli-failed", f"exit {res.rc}: {res.err[-300:]}; argv={argv}", case)
+            return
+        kept = {fastx.rid(r[0]) for r in fastx.read_records(os.path.join(d, "out.fq"))[1]}
+        for name, sq, qs, q in recs:
+            if mode == "n":
+                res_, borderline = R.too_many_n(sq, thr)
+                if borderline:
+                    continue
+                drop = res_
+                val = sq
+            else:
+                e = math.fsum(10 ** (-x / 10) for x in q)
+                val = e if mode == "ee" else (e / len(q) if q else 0.0)
+                t = float(thr)
+                if abs(val - t) <= 1e-4 * max(1.0, val) and not all(x == 0 for x in q):
+                    continue
+                drop = val > t if q or mode == "ee" else False
+            ctx.case(("cli", mode, thr, base, sq, qs) if drop or sq else None)
+            if (name not in kept) != bool(drop):
+                ctx.violation("cli-filter", f"{argv[2]} {thr} with --quality-base {base}: read {name} ({sq!r}, qualities {q}) has value {val!r}, "
+                              f"so it must be {'discarded' if drop else 'kept'}, but it was {'kept' if name in kept else 'discarded'}", case, klass=mode + str(base))
+    finally:
+        shutil.rmtree(d, ignore_errors=True)
+
+
 def run_shard(ctx):
     asan = ctx.variant == "asan"
     rng = ctx.rng("c14")
@@ -205,6 +258,9 @@ def run_shard(ctx):
         ctx.san_check(lambda: dict(kind="end"))
     if ctx.shard == 0 and not asan:
         exact_ee_cases(ctx)
+    if not asan:
+        for k in range(ctx.scale(12, 200)):
+            cli_case(ctx, ctx.shard * 100000 + k)
     if ctx.tier == "thorough" and not asan:
         idx = 0
         for L in range(0, 13):
@@ -226,6 +282,9 @@ def replay(ctx, case):
         check_seq(ctx, case["s"], case["max_n"])
     elif case.get("kind") == "quals":
         check_quals(ctx, case["quals"], case["thr_ee"], case["thr_aer"])
+    elif case.get("kind") == "cli":
+        ctx.shard = case["k"] // 100000
+        cli_case(ctx, case["k"])
     elif case.get("kind") == "eeq0":
         exact_ee_cases(ctx)
     elif case.get("kind") == "batch":
